@@ -258,9 +258,14 @@ def run_case(case, chooser, fine=False, make_scheduler=None, extra_targets=None,
         pspec = {int(k): v for k, v in case.get("pspec", {}).items()}
 
         def rel_arg(d_us):
-            return timedelta(microseconds=d_us) if rep == "td" else d_us / 1e6
+            return timedelta(microseconds=d_us) if rep in ("td", "tz") else d_us / 1e6
 
         def abs_arg(t_us):
+            if rep == "tz":
+                # the same instant written as an aware datetime of another timezone (west and east of UTC alternately)
+                from datetime import timezone
+                off = timedelta(hours=-5) if (t_us // 7) % 2 == 0 else timedelta(hours=5, minutes=30)
+                return clock.at(t_us).astimezone(timezone(off))
             return clock.at(t_us) if rep == "td" else clock.at(t_us).timestamp()
 
         def do_op(op, on=None):
